@@ -121,6 +121,8 @@ def run(ck):
                 br = f"(*({A} + 1) != '[')"
                 host = [d for d in dom if d[1] in ('is_ascii_domain', 'is_utf8_domain')]
                 if host:
+                    want_v = 'is_utf8_domain' if mode == '6531' else 'is_ascii_domain'
+                    if host[0][1] != want_v: why3.append(f'host-name branch of mode {mode} validates the domain with {host[0][1]}, the mode\'s domain validator is {want_v}')
                     a = host[0][2]
                     if a[-3 if host[0][1] == 'is_utf8_domain' else 0:][:2] != (f'({A} + 1)', '(email + length)') and a[:2] != (f'({A} + 1)', '(email + length)'):
                         why3.append(f'{host[0][1]} receives {a}')
